@@ -5,7 +5,8 @@ import json, os, re, glob, shutil, subprocess
 NOTES = {  # seed -> (detected_by, note) overriding / complementing the logged run
  'C01-1': ('C01 (bytes-once-in-order)', 'stale buffer length reused across two critical sections of Stdin.Read; found at preemption bound 1'),
  'C01-2': ('C01 (no-livelock)', 'first run ended in a harness error (step horizon); the livelock verdict (dump-based spin detection) was added because of this seed'),
- 'C03-1': ('NOT DETECTED', 'needs >1000 polling iterations of wall-clock slowness of an upstream stage; durations are not modelled and the controlled scheduler is fair'),
+ 'C03-1': ('C03 (sequential-meaning, long program)', 'not detected for most of the work (it looked like a wall-clock matter: the wait gives up after 1000 polls); after round 4 produced the same change with 100 polls it became clear that under the fair scheduler a poll is counted in forced switches, not time: a program whose upstream stage runs 300 loop iterations after the downstream stage is done exposes both variants under the default schedule, with no deviation at all'),
+ 'C03-r4-1': ('C03 (sequential-meaning, long program)', 'the round-1 change C03-1 again (cap of 100 polls instead of 1000); missed by the check as it stood, caught by the long program added because of it (see C03-1)'),
  'C03-2': ('C01 (no-livelock); not by C03', 'same edit as C01-2; the whole-interpreter C03 programs with 8-byte pipes did not reach the required order within 1 deviation of either default schedule'),
  'C05-1': ('C05 (stdout / exit)', 'stale exit number used for mid-pipeline commands in runModeTry; caught by the quick tier as built'),
  'C05-2': ('C05 (stdout / exit)', 'off-by-one in the chained || skip of runModeTryPipe; caught by the quick tier as built'),
@@ -72,9 +73,10 @@ EXCLUDE = {
  'C07-r2-2': 'swaps the relative precedence of && and ||, which the property does not fix (it speaks of parenthesised expressions; each operator still follows truthiness): not a violation of C07 as stated, and the check rightly stays silent',
 }
 # earlier manual confirmations
-MANUAL_OK = {'C21-2', 'C19-2', 'C01-r2-1', 'C01-r2-2', 'C28-r2-2', 'C32-r2-2', 'C13-r2-1', 'C13-r2-2', 'C24-r2-1', 'C21-r2-1', 'C23-r2-2'}
+MANUAL_OK = {'C21-2', 'C19-2', 'C01-r2-1', 'C01-r2-2', 'C28-r2-2', 'C32-r2-2', 'C13-r2-1', 'C13-r2-2', 'C24-r2-1', 'C21-r2-1', 'C23-r2-2', 'C26-r4-2', 'C32-r4-1', 'C32-r4-2'}
 for k in ['C01-1','C01-2','C03-1','C03-2','C05-1','C05-2','C26-1','C26-2','C28-1','C28-2']:
-    seeds.setdefault(k, {'verify': {"applies":True,"builds":True,"existing_tests_pass":True,"demo_fails_with_change":True,"demo_passes_without_change":True}, 'checks': []})
+    seeds.setdefault(k, {'verify': None, 'checks': []})
+    if seeds[k]['verify'] is None: seeds[k]['verify'] = {"applies":True,"builds":True,"existing_tests_pass":True,"demo_fails_with_change":True,"demo_passes_without_change":True}
 rows = []
 for k in sorted(seeds):
     parts = k.split('-')
